@@ -107,7 +107,7 @@ func (e *Engine) checkExpandSubject(r *relationTuple, restDepth int) checkgroup.
 		e.d.Logger().
 			WithField("request", r.String()).
 			Debug("reached max-depth, therefore this query will not be further expanded")
-		return checkgroup.UnknownMemberFunc
+		return cutShort
 	}
 	return func(ctx context.Context, resultCh chan<- checkgroup.Result) {
 		e.d.Logger().
@@ -150,6 +150,7 @@ func (e *Engine) checkExpandSubject(r *relationTuple, restDepth int) checkgroup.
 				WithField("results", len(results)).
 				Debug("too many results, truncating")
 			results = results[:maxWidth-1]
+			markCut(ctx)
 		}
 		for _, result := range results {
 			sub := &relationtuple.SubjectSet{
@@ -172,7 +173,7 @@ func (e *Engine) checkDirect(r *relationTuple, restDepth int) checkgroup.CheckFu
 		e.d.Logger().
 			WithField("method", "checkDirect").
 			Debug("reached max-depth, therefore this query will not be further expanded")
-		return checkgroup.UnknownMemberFunc
+		return cutShort
 	}
 	return func(ctx context.Context, resultCh chan<- checkgroup.Result) {
 		e.d.Logger().
@@ -217,7 +218,7 @@ func (e *Engine) checkIsAllowed(ctx context.Context, r *relationTuple, restDepth
 		e.d.Logger().
 			WithField("method", "checkIsAllowed").
 			Debug("reached max-depth, therefore this query will not be further expanded")
-		return checkgroup.UnknownMemberFunc
+		return cutShort
 	}
 
 	e.d.Logger().
